@@ -12,6 +12,6 @@ for d in sorted(glob.glob(os.path.join(ROOT, "seeded", "*"))):
 table = "\n".join(["| seed | breaks | change (by an independent sub-agent) | detected by | history |", "|---|---|---|---|---|"] + rows)
 p = os.path.join(ROOT, "DESIGN.md")
 s = open(p).read()
-s = re.sub(r"(<!-- SEEDS-BEGIN -->\n).*?(\n<!-- SEEDS-END -->)", lambda mm: mm.group(1) + table + mm.group(2), s, flags=re.S)
+s = re.sub(r"(<!-- SEEDS-BEGIN -->\n).*?(<!-- SEEDS-END -->)", lambda mm: mm.group(1) + table + "\n" + mm.group(2), s, flags=re.S)
 open(p, "w").write(s)
 print(len(rows), "seeds")
